@@ -40,6 +40,7 @@ DOCX_FEATURES = {
     "image-target-parent": "image relationship target ../word/media/x.png (twin: media/x.png)",
     "image-target-absolute": "image relationship target /word/media/x.png (twin: media/x.png)",
     "image-rel-order": "image relationships listed in reverse document order (twin: document order)",
+    "missing-media-part": "three pictures, the middle one's relationship points at a media part that is not in the package (twin: the last one's does)",
     "text-before-first-heading": "body paragraphs before the first heading (twin: they follow the heading)",
     "table-cell-multi-para": "table cell with two paragraphs (twin: one paragraph)",
     "empty-section": "a heading directly followed by a heading of the same level, i.e. a section without body text (twin: one paragraph between them)",
@@ -238,14 +239,16 @@ def build_docx(seed: int, feature: str | None = None, twin: bool = False):
         xml.append("</w:tbl>")
         return "".join(xml), grid
 
-    def image_para(target_style="media"):
+    def image_para(target_style="media", missing=False):
         idx = len(images) + 1
         im = _rand_image(rng, idx)
         im["name"] = f"image{idx}{im['ext']}"
         im["rid"] = f"rIdImg{idx}"
         im["target"] = {"media": f"media/{im['name']}", "parent": f"../word/media/{im['name']}", "absolute": f"/word/media/{im['name']}"}[target_style]
+        im["missing"] = missing
         images.append(im)
-        parts[f"word/media/{im['name']}"] = im["data"]
+        if not missing:
+            parts[f"word/media/{im['name']}"] = im["data"]
         return (f'<w:p><w:r><w:drawing><wp:inline><wp:extent cx="{im["w"] * 9525}" cy="{im["h"] * 9525}"/><wp:docPr id="{idx}" name="Picture {idx}"/>'
                 f'<a:graphic xmlns:a="{A}"><a:graphicData uri="{PIC}"><pic:pic xmlns:pic="{PIC}"><pic:nvPicPr><pic:cNvPr id="{idx}" name="img{idx}" descr="d{idx}"/><pic:cNvPicPr/></pic:nvPicPr>'
                 f'<pic:blipFill><a:blip r:embed="{im["rid"]}"/><a:stretch><a:fillRect/></a:stretch></pic:blipFill><pic:spPr/></pic:pic></a:graphicData></a:graphic></wp:inline></w:drawing></w:r></w:p>')
@@ -285,7 +288,7 @@ def build_docx(seed: int, feature: str | None = None, twin: bool = False):
             body.append(xml)
             exp.tables.append({"grid": grid})
             body.append(para())
-        elif kind < 0.88 and feature not in ("image-target-parent", "image-target-absolute", "image-rel-order"):
+        elif kind < 0.88 and feature not in ("image-target-parent", "image-target-absolute", "image-rel-order", "missing-media-part"):
             body.append(image_para())
         else:
             body.append(textbox(""))
@@ -326,7 +329,8 @@ def build_docx(seed: int, feature: str | None = None, twin: bool = False):
     parts["docProps/core.xml"] = _core(meta, random.Random(f"core:{seed}"))
     parts["[Content_Types].xml"] = _ct(IMG_DEFAULTS, {"/word/document.xml": "application/vnd.openxmlformats-officedocument.wordprocessingml.document.main+xml"})
     for im in images:
-        exp.images.append({"sha": im["sha"], "ctype": im["ctype"], "w": im["w"], "h": im["h"], "unit": None})
+        if not im.get("missing"):     # a picture whose part is not in the package cannot be returned; the others are numbered 1..n
+            exp.images.append({"sha": im["sha"], "ctype": im["ctype"], "w": im["w"], "h": im["h"], "unit": None})
     order = ["[Content_Types].xml", "_rels/.rels"] + [k for k in parts if k not in ("[Content_Types].xml", "_rels/.rels")]
     return _zip(parts, order), exp
 
@@ -365,6 +369,8 @@ def _docx_feature(feature, twin, rng, tk, exp, unit, words, para, table, image_p
         return image_para("media" if twin else "absolute")
     if feature == "image-rel-order":
         return image_para() + para() + image_para() + para() + image_para()
+    if feature == "missing-media-part":
+        return image_para() + para() + image_para(missing=not twin) + para() + image_para(missing=twin)
     if feature == "table-cell-multi-para":
         xml, grid = table(2, 2, multi_para=not twin)
         exp.tables.append({"grid": grid})
